@@ -425,12 +425,12 @@ func runC02(r *Run) {
 		v := v
 		r.One(2+v, func(c *Case, _ *Rng) { c02GhostCase(c, v) })
 	}
-	n := r.N(140, 1500)
+	n := r.N(400, 6000)
 	r.Cases(100, n, 0, func(c *Case, rng *Rng) {
 		rng = NewRng(rng.U64() ^ 0x5bd1e995)
 		spec := c02RandSpec(rng, 1)
 		c02MonitorCase(c, rng, spec, rng.Chance(25), rng.Range(3, 8))
 	})
 	runC02Exec(r)
-	r.Cases(200000, r.N(60, 600), 0, func(c *Case, rng *Rng) { c02ConcCase(c, rng) })
+	r.Cases(200000, r.N(150, 2000), 0, func(c *Case, rng *Rng) { c02ConcCase(c, rng) })
 }
